@@ -111,14 +111,14 @@ func InBubble(t *testing.T, seed uint64, sched []uint16, f func(w *World)) (pv i
 	}()
 	synctest.Test(t, func(bt *testing.T) {
 		s := core.NewSim(sched)
+		s.SiteSalt = seed
+		if (seed>>4)%2 == 1 {
+			// half of the runs have slow goroutines: some parks last many steps
+			s.StallMod = 4 + (seed>>5)%16
+		}
 		if core.FineGrainedBuild && os.Getenv("VERIF_FINE") != "" {
 			s.Fine = true
-			s.SiteSalt = seed
 			s.SiteMod = 4 + seed%9
-			if (seed>>4)%2 == 0 {
-				// half of the runs have slow goroutines: some yield parks last many steps
-				s.StallMod = 4 + (seed>>5)%16
-			}
 			s.MaxSteps = 80000
 		}
 		w := &World{T: bt, Sim: s, Dir: dir, ServerLog: sl}
